@@ -113,7 +113,7 @@ def run_case(case, schedule, opts):
         ckey = (int(ref.split('.', 1)[0][5:]), name.split('#', 1)[1]) if '#' in name else None
         if ckey in cond_k:
             it = int(name.split('#', 1)[0])
-            spec['outs'] = [[0.05, 'iteration.next', 'True\n' if it < cond_k[ckey] else 'False\n']]
+            spec['outs'] = [[0.05, 'iteration.next', 'True\n' if it < cond_k[ckey] else 'False\n', 'w']]
         if ref in outside_meta:
             wg = ctx.exp.experimentGraph
             spec_c = wg.graph.nodes[ref]['componentSpecification']
